@@ -281,6 +281,40 @@ static void neuro_scenario(int mode, int wset, int const *sets, int const *fdbs,
     ++n_ctl;
 }
 
+/* the single-neuron controller with its learning rates at zero (constant weights whose magnitudes add up to a power of
+   two) and dyadic inputs: every quantity of the documented output equation
+   u(k) = u(k-1) + K (wp xp + wi xi + wd xd) / (|wp| + |wi| + |wd|), clamped to the output limits, is exact */
+static void neuro_exact(int kset, int wset, int const *sets, int const *fdbs, int n)
+{
+    static double const ks[] = {1, 0.5, 2};
+    static double const ws[][3] = {{0.5, 0.25, 0.25}, {-0.5, 0.25, 0.25}, {0.25, -0.5, -0.25}, {1, -2, 1}, {-1, -0.5, -0.5}, {0.125, 0.125, -0.25}};
+    a_pid_neuro ctx;
+    memset(&ctx, 0, sizeof(ctx));
+    ctx.pid.summax = 6; ctx.pid.summin = -6; ctx.pid.outmax = 10; ctx.pid.outmin = -10;
+    a_pid_neuro_set_kpid(&ctx, (a_real)ks[kset], 0, 0, 0);
+    a_pid_neuro_set_wpid(&ctx, (a_real)ws[wset][0], (a_real)ws[wset][1], (a_real)ws[wset][2]);
+    a_pid_neuro_zero(&ctx);
+    FILE *f = out();
+    fprintf(f, "{\"f\":\"npidx\",\"width\":%d,\"k\":", (int)sizeof(a_real));
+    put_dyadic(f, ks[kset]);
+    fputs(",\"w\":[", f);
+    for (int i = 0; i < 3; ++i) { if (i) { fputc(',', f); } put_dyadic(f, ws[wset][i]); }
+    fputs("],\"lim\":[-10,10],\"steps\":[", f);
+    for (int i = 0; i < n; ++i)
+    {
+        double o = (double)a_pid_neuro_inc(&ctx, (a_real)(sets[i] / 2.0), (a_real)(fdbs[i] / 2.0));
+        fprintf(f, i ? ",{\"set\":" : "{\"set\":");
+        put_dyadic(f, sets[i] / 2.0);
+        fputs(",\"fdb\":", f); put_dyadic(f, fdbs[i] / 2.0);
+        fputs(",\"out\":", f); put_dyadic(f, o);
+        fputs(",\"w\":[", f);
+        put_dyadic(f, (double)ctx.wp); fputc(',', f); put_dyadic(f, (double)ctx.wi); fputc(',', f); put_dyadic(f, (double)ctx.wd);
+        fputs("]}", f);
+    }
+    fputs("]}\n", f);
+    ++n_ctl;
+}
+
 int main(int argc, char **argv)
 {
     if (argc < 5) { fprintf(stderr, "usage: %s <tlc-output> <out-prefix> <batches> <seed>\n", argv[0]); return 2; }
@@ -424,6 +458,7 @@ controllers:;
                 fb[i] = (int)((s >> 20) % 9) - 4;
             }
             neuro_scenario(mode, c % 3, st, fb, 8);
+            if (mode == 1) { neuro_exact(c % 3, c % 6, st, fb, 8); neuro_exact((c + 1) % 3, (c / 3) % 6, st, fb, 8); }
         }
     }
     for (int i = 0; i < nb; ++i) { fclose(fo[i]); }
